@@ -1,8 +1,8 @@
 (* Extraction for the "c06" driver (C06 flux-sector solver).  ExtrOcamlBasic only:
    nat, positive, Z stay the extracted inductive types. *)
-From Koala Require Import Model.AStar Model.FluxSolver.
+From Koala Require Import Model.AStar Model.FluxSolver Gen.AnsatzGen.
 Require Extraction.
 Require Import ExtrOcamlBasic.
 Extraction "model.ml"
   fs_solve fs_fluxes_ujk fs_fluxes_bonds fs_wf fs_pm1 fs_pairing_ok fs_path_ok fs_where_neg
-  fs_flip_adjacent fs_map2.
+  fs_flip_adjacent fs_map2 fs_sign_real ground_state_ansatz.
